@@ -5,6 +5,7 @@
 #![allow(clippy::all)]
 
 extern crate rustc_abi;
+extern crate rustc_ast;
 extern crate rustc_ast_pretty;
 extern crate rustc_driver;
 extern crate rustc_hir;
@@ -782,9 +783,48 @@ fn const_json<'tcx>(cx: &Cx<'tcx>, did: LocalDefId) -> J {
     J::Obj(o)
 }
 
-struct Cb;
+#[derive(Default)]
+struct Cb {
+    /// (enum name, variant name, attribute text) read from the expanded AST, because derive
+    /// helper attributes (#[token], #[regex], #[error]) do not survive lowering to HIR
+    variant_attrs: Vec<(String, String, String)>,
+}
+
+fn collect_variant_attrs(items: &[Box<rustc_ast::ast::Item>], out: &mut Vec<(String, String, String)>) {
+    use rustc_ast::ast::{ItemKind, ModKind};
+    for it in items {
+        match &it.kind {
+            ItemKind::Mod(_, _, ModKind::Loaded(inner, ..)) => collect_variant_attrs(inner, out),
+            ItemKind::Enum(ident, _, def) => {
+                for v in def.variants.iter() {
+                    for a in v.attrs.iter() {
+                        out.push((
+                            ident.to_string(),
+                            v.ident.to_string(),
+                            rustc_ast_pretty::pprust::attribute_to_string(a),
+                        ));
+                    }
+                }
+            }
+            _ => {}
+        }
+    }
+}
 
 impl rustc_driver::Callbacks for Cb {
+    fn after_expansion<'tcx>(
+        &mut self,
+        _compiler: &rustc_interface::interface::Compiler,
+        tcx: TyCtxt<'tcx>,
+    ) -> Compilation {
+        let krate = tcx.crate_name(rustc_hir::def_id::LOCAL_CRATE).to_string();
+        if WORKSPACE.contains(&krate.as_str()) {
+            let r = tcx.resolver_for_lowering().borrow();
+            collect_variant_attrs(&r.1.items, &mut self.variant_attrs);
+        }
+        Compilation::Continue
+    }
+
     fn after_analysis<'tcx>(
         &mut self,
         _compiler: &rustc_interface::interface::Compiler,
@@ -868,6 +908,15 @@ impl rustc_driver::Callbacks for Cb {
             ("crate", js(krate.clone())),
             ("crate_type", js(ctype.clone())),
             ("rustc", js(rustc_session::config::host_tuple().to_string())),
+            (
+                "variant_attrs",
+                J::Arr(
+                    self.variant_attrs
+                        .iter()
+                        .map(|(e, v, a)| J::Arr(vec![js(e.clone()), js(v.clone()), js(a.clone())]))
+                        .collect(),
+                ),
+            ),
             ("adts", J::Arr(adts)),
             ("consts", J::Arr(consts)),
             ("statics", J::Arr(statics)),
@@ -891,5 +940,5 @@ fn main() {
     if args.len() > 1 {
         args.remove(1);
     }
-    rustc_driver::run_compiler(&args, &mut Cb);
+    rustc_driver::run_compiler(&args, &mut Cb::default());
 }
